@@ -1605,9 +1605,10 @@ def run_contract(ctx: ContractContext) -> list[TestResult]:
 
         return []
 
-    # initialize the frontier and visited states using the initial setup state
+    # initialize the frontier using the initial setup state
+    # note: the setup state is not registered as visited: it keeps the concrete setup timestamp, whereas a state
+    # with the same id reached by a transaction gets a fresh timestamp (>= the previous one) and must be explored
     ctx.frontier_states[0] = [setup_ex]
-    ctx.visited.add(get_state_id(setup_ex))
 
     test_results = run_tests(ctx, setup_ex, ctx.funsigs)
 
